@@ -71,7 +71,7 @@ def _reparse_raw_base(
         copy_root = fst.FST.fromsrc(copy_root.src, mode or 'exec', **root._parse_params)
 
     except (SyntaxError, NodeError):
-        if mode is None or path:  # if there is a path then we expect the top level node to parse to the same thing successfully, if it does not then it is a genuine error
+        if mode is None or path or (isinstance(mode, type) and issubclass(mode, mod)):  # if there is a path then we expect the top level node to parse to the same thing successfully, if it does not then it is a genuine error, likewise a whole module / expression / interactive root must stay what it is
             raise
 
         try:
